@@ -4,6 +4,14 @@ import json, os
 V = os.path.dirname(os.path.dirname(os.path.abspath(__file__)))
 
 CLAIMED = {
+ 'C13': dict(
+  text='Static decision of the hand-over protocol shape behind run-exactly-once / join / finished(): trampolines order context copy, ready, '
+       'user function and finished flag on every exit; creators wait for `ready` before the handed-over context dies and never store the '
+       'finished flag after the OS thread exists (call-graph closure over copy/assign); parallel_for/parallel_invoke join everything they start; '
+       'the worker count is evaluated over a grid (1 <= n <= min(threads, length)) and the partition fields/loop have the strided form; '
+       'Semaphore/Condition are exact thin wrappers. Visibility under all schedules is not decided.',
+  technique='CFG typestate dataflow for ordering/must-precede/join pairing with call-graph closure; expression evaluation of the worker-count formula over a finite grid; structural data-flow identities',
+  ref='DESIGN.md section 3 C13'),
  'C15': dict(
   text='Static decision of the structural clauses of the codec property: Base64 alphabet/inverse-table agreement on all 64 symbols and 6-bit '
        'index masking, hex nibble table, exact byte sets of Url::encode in both modes (% always escaped, & = + escaped in component mode, '
